@@ -103,6 +103,24 @@ Section C15.
     exact (SrcWriters.src_step_is_model A key value node bytes key_eqb header objects problems ser_xml pb_header
                                         pb_objects pb_problems ser_pb).
   Qed.
+  (* the main statement, about histories run with the parsed bodies *)
+  Theorem C15_source_write_history_independent :
+    forall (h : list (op A)) (s0 : world) w path m f p a (pp : bool),
+      inputs_of A h w (inputs_in s0 w) = Some (f, p, a) ->
+      let s := SrcWriters.src_run A key value node bytes key_eqb header objects problems ser_xml pb_header pb_objects
+                                  pb_problems ser_pb h s0 in
+      skips (file_exists path s) m = false ->
+      let (s', o) := SrcWriters.src_step A key value node bytes key_eqb header objects problems ser_xml pb_header
+                                         pb_objects pb_problems ser_pb s
+                                         (if pp then Write w path m else WriteScenario w path m) in
+      o = OWritten path (render f p a pp) /\
+      lookup path (files s') = Some (render f p a pp) /\
+      (forall q, q <> path -> lookup q (files s') = lookup q (files s)) /\
+      (forall w', inputs_in s' w' = inputs_in s w').
+  Proof.
+    exact (SrcWriters.src_write_history_independent A key value node bytes key_eqb header objects problems ser_xml
+             pb_header pb_objects pb_problems ser_pb).
+  Qed.
   (* FileWriter.__init__ installs decimal_precision; _handle_file_path is the overwrite policy of [skips] (both
      compared with their expected text) *)
   Theorem C15_frames_are_source :
@@ -156,3 +174,4 @@ Print Assumptions C15_repaired_examples.
 Print Assumptions C15_step_is_source.
 Print Assumptions C15_frames_are_source.
 Print Assumptions C15_source_nonvacuous.
+Print Assumptions C15_source_write_history_independent.
